@@ -1,7 +1,8 @@
 """C18 — PoolSum denotes the finite sum over its index pools.
 
 Generator: summands from a small grammar (index symbols, free symbols, small rationals,
-``+ * **``, an uninterpreted ``f(.,.)``, an ``Indexed`` amplitude-like symbol ``A[.,.]``,
+``+ * **``, an uninterpreted ``f(.,.)``, an ``Indexed`` amplitude-like symbol ``A[.,.]``, an
+``@unevaluated`` class with a non-SymPy attribute ``T(.,.)`` (polynomial unfolding),
 nested ``PoolSum`` incl. an inner sum re-using an outer index name or binding a name that
 is free elsewhere), 0-4 indices with pools of 1-3 rationals (singletons and duplicates
 included) and a substitution map.
@@ -73,6 +74,7 @@ def _expr():
             st.tuples(st.just("pow"), children, st.integers(0, 3)).map(list),
             st.tuples(st.just("f"), children, children).map(list),
             st.tuples(st.just("A"), children, children).map(list),
+            st.tuples(st.just("T"), children, children).map(list),
             st.tuples(
                 st.just("sum"), children, _indices([*INDEX_NAMES, "x"], 1, 2)
             ).map(list),
@@ -137,6 +139,14 @@ def _num(txt):
 RefSum = sp.Function("RefSum")
 
 
+def _tagged():
+    """A class defined with the library's @unevaluated decorator that has a non-SymPy attribute (like the library's
+    EnergyDependentWidth) and unfolds to a polynomial, so that values stay exact rationals."""
+    from vp.gen.custom_classes import TaggedPolynomial  # noqa: PLC0415
+
+    return TaggedPolynomial
+
+
 def _ref_ctor(body, *indices):
     return RefSum(body, *[sp.Tuple(s, sp.Tuple(*vals)) for s, vals in indices])
 
@@ -161,6 +171,8 @@ def build(tree, ctor=None):
         return f(build(tree[1], ctor), build(tree[2], ctor))
     if op == "A":
         return A[build(tree[1], ctor), build(tree[2], ctor)]
+    if op == "T":
+        return _tagged()(build(tree[1], ctor), build(tree[2], ctor), tag="ab")
     if op == "sum":
         return ctor(build(tree[1], ctor), *[(_sym(n), [_num(v) for v in p]) for n, p in tree[2]])
     raise ValueError(op)
@@ -197,6 +209,8 @@ def reference(tree, env):
         return f(reference(tree[1], env), reference(tree[2], env))
     if op == "A":
         return A[reference(tree[1], env), reference(tree[2], env)]
+    if op == "T":  # constructed from the values (no substitution involved)
+        return _tagged()(reference(tree[1], env), reference(tree[2], env), tag="ab")
     if op == "sum":
         return ref_sum(tree[1], tree[2], env)
     raise ValueError(op)
@@ -254,6 +268,9 @@ _POINT = {
 
 
 def _numeric(expr):
+    if expr.has(_tagged()):
+        # (not `replace`: it rebuilds nodes with `func(*args)`, which drops non-SymPy attributes)
+        expr = expr.doit()
     expr = expr.replace(lambda e: isinstance(e, sp.Indexed), lambda e: 2 * e.indices[0] - e.indices[1] ** 2 + 5)
     expr = expr.replace(f, lambda a, b: 3 * a + b * b + a * b + 1)
     expr = expr.xreplace({sp.Symbol(n): v for n, v in _POINT.items()})
